@@ -43,11 +43,12 @@ def run(ctx):
         ctx.obligation("compiled code corresponds to the .pyx source (DESIGN 4.5)", not diffs,
                        "source and compiled code differ; the property is shown for the compiled code only: %r" % (diffs[:5],))
         C.shadow(sanitize=True)
-        # the callers' allocation arithmetic: the (bit width, selfmade) chains of the page readers regenerated as Gallina and
-        # proved adequate (allocation item size = itemsize argument, item holds the width) on every run; C12_caller_allocation_fits
-        # turns adequacy into "the decoder writes at most the bytes the caller allocated"
+        # the callers: the (bit width, selfmade) chains of the page readers regenerated as Gallina; re-proved on it: the generic
+        # decoder is entered only inside the region where its model is proved safe (never width 0, item sizes 1/4, own pages take
+        # the array view).  The decoder clamps to whatever capacity it is handed (C12_safe_partial), so value-level adequacy of
+        # the allocation is C11's obligation; C12_caller_allocation_fits states the exact byte count for adequate leaves.
         from harness import codec_dispatch as D
-        mode, K.DISPATCH_TAB = D.translate_dispatch(ctx)
+        mode, K.DISPATCH_TAB = D.translate_dispatch(ctx, proofs="GenDispatchSafetyProofs.v")
         ctx.rule = ("the C11 lattice thinned to the boundary points (widths {0,1,3,8,9,16,23,24,25,26,31,32}, delta widths "
                     "{0,1,8,24,28,29,32,33,56,57,63,64}, patterns ones/random, capacities 0 / count-1 / count / count+1 items), every input "
                     "and output buffer an exactly-sized heap allocation, no byte behind the encoded run; trivial = nothing to decode; "
